@@ -136,13 +136,13 @@ theorem dedupKeys_append (a b ks : List Nat) :
   | nil => rfl
   | cons x a ih => simp only [List.cons_append, dedupKeys, ih]
 
-theorem keys_linesToBlockGo : ∀ (bl : List Block) (n : Nat) (m : List (Nat × List Nat)),
-    keys (linesToBlockGo bl n m) = dedupKeys (bl.flatMap (·.lines)) (keys m) := by
+theorem keys_linesToBlockGo : ∀ (bl : List Block) (m : List (Nat × List Nat)),
+    keys (linesToBlockGo bl m) = dedupKeys (bl.flatMap (·.lines)) (keys m) := by
   intro bl
   induction bl with
-  | nil => intro n m; rfl
+  | nil => intro m; rfl
   | cons b bl ih =>
-    intro n m
+    intro m
     simp only [linesToBlockGo, ih, keys_linesToBlockLines, List.flatMap_cons, dedupKeys_append]
 
 theorem keys_linesToBlock (f : Func) :
